@@ -107,6 +107,8 @@ def verify_unit(reg, contract, tier="quick"):
         if contract.ghost_entry:
             run_ghost_code(ex, state, contract.ghost_entry)
         outs = ex.exec_block(state, fi.node.body)
+        if contract.merge_returns:
+            outs = merge_return_outcomes(ex, outs)
         n_normal = 0
         for o in outs:
             if o.kind in ("return", "normal", "raise") and contract.hints:
@@ -172,6 +174,22 @@ def run_ghost_code(ex, state, stmts):
         raise Unsupported("ghost code must be total")
     state.become(outs[0].state)
     state.frame.locals.pop("ghost", None)
+
+
+def merge_return_outcomes(ex, outs):
+    """one merged normal exit (result and state as ITEs over the paths) instead of one per `return`"""
+    from .engine import merge_states, Outcome
+    rets = [o for o in outs if o.kind in ("return", "normal")]
+    rest = [o for o in outs if o.kind not in ("return", "normal")]
+    if len(rets) <= 1:
+        return outs
+    for o in rets:
+        o.state.frame.locals["__ret__"] = o.val if o.kind == "return" else VNone
+    m = merge_states([o.state for o in rets])
+    if m is None:
+        return rest
+    val = m.frame.locals.pop("__ret__")
+    return rest + [Outcome("return", m, val)]
 
 
 def _digest(text):
@@ -416,6 +434,9 @@ def guarded_check(s, timeout_ms):
     return out["r"]
 
 
+NO_INNER_FORK = [False]     # set inside solve_all workers: the worker process itself is the isolation unit
+
+
 def split_goal(goal, hyps=(), depth=0):
     """goal preprocessing: universally quantified goals are skolemized by hand (a fresh constant per bound
     variable), conjunctions are split, implications move their antecedent to the hypotheses.  Returns a list of
@@ -488,7 +509,13 @@ def _solve_one(ob, timeout_ms, use_cvc5=True, ex=None):
         if r == z3.unknown:
             out["reason"] = s.reason_unknown()
         return out
-    out = forked(fn, timeout_ms / 1000.0 + 3.0) or {"r": "unknown", "reason": "hard timeout"}
+    if NO_INNER_FORK[0]:
+        try:
+            out = fn()
+        except BaseException as e:      # noqa
+            out = {"r": "unknown", "reason": repr(e)}
+    else:
+        out = forked(fn, timeout_ms / 1000.0 + 3.0) or {"r": "unknown", "reason": "hard timeout"}
     ob.backend = "z3"
     ob.inputs = out.get("inputs")
     if out.get("r") == "unsat":
@@ -523,7 +550,7 @@ def _solve_one(ob, timeout_ms, use_cvc5=True, ex=None):
                     except Exception as e:
                         o2["inputs"] = {"<error>": repr(e)}
                 return o2
-            out2 = forked(fn2, min(timeout_ms, 15000) / 1000.0 + 3.0) or {}
+            out2 = (fn2() if NO_INNER_FORK[0] else forked(fn2, min(timeout_ms, 15000) / 1000.0 + 3.0)) or {}
             if out2.get("r") == "sat":
                 ob.candidate_inputs = out2.get("inputs")
     ob.time = time.time() - t0
@@ -656,3 +683,99 @@ def seq_to_list(r, model):
         out.append(str(t))
     rec(r)
     return out
+
+
+def solve_all(obls, timeout_ms, ex, width):
+    """solve obligations with `width` forked workers, each taking a slice (one fork per worker, not per obligation:
+    forking a process that holds a large z3 context is expensive).  Workers stream one record per obligation; a worker
+    that makes no progress past the budget of its current obligation is killed and its remaining slice restarted."""
+    import pickle
+    import select
+    import signal
+    import struct as _st
+    if width <= 1 or len(obls) <= 2:
+        for ob in obls:
+            solve_obligation(ob, timeout_ms, ex=ex)
+        return
+    fields = ("status", "backend", "time", "inputs", "reason", "candidate_inputs")
+    order = sorted(range(len(obls)), key=lambda i: i % width)      # interleave: neighbours (similar cost) spread out
+    slices = [[i for i in order if i % width == w] for w in range(width)]
+    slices = [sl for sl in slices if sl]
+    running = {}        # fd -> dict(pid, buf, todo(list of idx), last(progress time))
+
+    def budget(i):
+        return (timeout_ms / 1000.0) * (len(split_goal(obls[i].goal)) + 1) * 1.5 + 30
+
+    def start(todo):
+        r, w = os.pipe()
+        pid = os.fork()
+        if pid == 0:
+            os.close(r)
+            NO_INNER_FORK[0] = True
+            try:
+                with os.fdopen(w, "wb") as f:
+                    for i in todo:
+                        ob = obls[i]
+                        try:
+                            solve_obligation(ob, timeout_ms, ex=ex)
+                            rec = {k: getattr(ob, k, None) for k in fields}
+                        except BaseException as e:      # noqa
+                            rec = {"status": "unknown", "backend": "z3", "time": 0.0, "reason": "worker error %r" % (e,)}
+                        data = pickle.dumps((i, rec))
+                        f.write(_st.pack("!I", len(data)) + data)
+                        f.flush()
+            finally:
+                os._exit(0)
+        os.close(w)
+        running[r] = {"pid": pid, "buf": b"", "todo": list(todo), "last": time.time()}
+
+    for sl in slices:
+        start(sl)
+    while running:
+        rd, _, _ = select.select(list(running.keys()), [], [], 1.0)
+        now = time.time()
+        for fd in list(running.keys()):
+            st = running[fd]
+            if fd in rd:
+                chunk = os.read(fd, 1 << 16)
+                if chunk:
+                    st["buf"] += chunk
+                    while len(st["buf"]) >= 4:
+                        n = _st.unpack("!I", st["buf"][:4])[0]
+                        if len(st["buf"]) < 4 + n:
+                            break
+                        i, rec = pickle.loads(st["buf"][4:4 + n])
+                        st["buf"] = st["buf"][4 + n:]
+                        for k, v in rec.items():
+                            setattr(obls[i], k, v)
+                        if i in st["todo"]:
+                            st["todo"].remove(i)
+                        st["last"] = now
+                    continue
+                # EOF
+                running.pop(fd)
+                os.close(fd)
+                try:
+                    os.waitpid(st["pid"], 0)
+                except ChildProcessError:
+                    pass
+                if st["todo"]:      # worker died early: first pending obligation is the culprit
+                    bad = st["todo"].pop(0)
+                    obls[bad].status, obls[bad].backend, obls[bad].time = "unknown", "z3", 0.0
+                    obls[bad].reason = "solver process died"
+                    if st["todo"]:
+                        start(st["todo"])
+                continue
+            if st["todo"] and now - st["last"] > budget(st["todo"][0]):
+                running.pop(fd)     # z3 ignored its soft timeout: kill, mark, restart the rest of the slice
+                try:
+                    os.kill(st["pid"], signal.SIGKILL)
+                    os.waitpid(st["pid"], 0)
+                except (ProcessLookupError, ChildProcessError):
+                    pass
+                os.close(fd)
+                bad = st["todo"].pop(0)
+                obls[bad].status, obls[bad].backend, obls[bad].time = "unknown", "z3", timeout_ms / 1000.0
+                obls[bad].reason = "hard timeout (worker killed)"
+                if st["todo"]:
+                    start(st["todo"])
